@@ -22,10 +22,11 @@ import (
 // by the process (local listener for http.send, resolver dial hook for
 // net.lookup_ip_addr, recording default transport).
 type sbCase struct {
-	ID  string `json:"id"`
-	B   string `json:"b"`
-	Pos string `json:"pos"`
-	Syn string `json:"syn"`
+	ID    string `json:"id"`
+	B     string `json:"b"`
+	Pos   string `json:"pos"`
+	Syn   string `json:"syn"`
+	Debug bool   `json:"debug"`
 }
 
 type sbObs struct {
@@ -237,7 +238,12 @@ func runSandbox(c sbCase) (o sbObs) {
 			o.Profile = prof
 		}
 	}()
-	_, err := pkg.CompileProfile(prof, false, nil)
+	debug := len(c.ID)%2 == 1 || c.Debug
+	_, err := pkg.CompileProfile(prof, debug, nil)
+	if err == nil {
+		// every compilation of the same text must be judged, not only the first one, and whatever the debug flag
+		_, err = pkg.CompileProfile(prof, !debug, nil)
+	}
 	if err != nil {
 		o.CompileErr = true
 		o.CompileMsg = err.Error()
@@ -247,7 +253,12 @@ func runSandbox(c sbCase) (o sbObs) {
 			o.CompileMsg = o.CompileMsg[:500]
 		}
 	}
-	_, err = pkg.Validate(prof, sandboxData, false, nil)
+	_, err = pkg.Validate(prof, sandboxData, !debug, nil)
+	if err == nil {
+		_, err = pkg.Validate(prof, sandboxData, debug, nil)
+	} else if _, err2 := pkg.Validate(prof, sandboxData, debug, nil); err2 == nil {
+		err = nil // rejected once, accepted when submitted again
+	}
 	if err != nil {
 		o.ValidateErr = true
 		o.ValidateMsg = err.Error()
